@@ -2,7 +2,7 @@
 
 Deciding step: all schedules of two (thorough: also three) real threads each constructing a
 first in-memory store, enumerated by iterative preemption bounding with scheduling points at
-every line of store.py and every bytecode of the constructor's own frame; plus the sequential
+every line of the library's own source files and every bytecode of the constructor's own frame; plus the sequential
 orders: every sequence (<=2, thorough <=3) of owner-thread operations (in-memory/file creation,
 close, valid open, failing opens of a missing / an invalid file) followed by an attempt from another
 thread, which must be refused once the owner has constructed a store.
@@ -12,6 +12,7 @@ no deadlock.
 
 from __future__ import annotations
 
+import sys
 import threading
 
 from vf import runner
@@ -22,10 +23,11 @@ ID = 'C20'
 LEVEL = 'model_checking'
 ENGINE = 'custom'
 ASSUMPTIONS = [
-    'scheduling points: every line event in AEIC/trajectories/store.py, every opcode event in TrajectoryStore.__init__ own frame',
-    'simple class/module attributes of the store module (the owner record) are restored before each execution',
+    'scheduling points: every line event in any source file of the AEIC package (the guard may live in a helper module or a base class), every opcode event in TrajectoryStore.__init__ own frame',
+    'simple-valued attributes of the store class, of its library base classes, of the harness subclass and of every loaded AEIC module (wherever the owner record lives) are restored before each execution',
     'thread bodies use in-memory stores only, so no HDF5 call is made from two threads',
-    'locks found in the store module / TrajectoryStore class are replaced by cooperative wrappers',
+    'locks found in any AEIC module or class are replaced by cooperative wrappers, and locks the library creates at run time are cooperative too (threading proxy in every AEIC module)',
+    'sequential orders include the process forking a child while the owner thread holds its claim',
 ]
 BOUNDS = {
     # (threads, body, granularity, preemption bound)
@@ -37,33 +39,53 @@ BOUNDS = {
 _S = {}
 
 
+def _dunder(k):
+    return k.startswith('__') and k.endswith('__')
+
+
+_SIMPLE = (type(None), int, bool, str, float)
+
+
+def _simple_attrs(ns):
+    return {k: v for k, v in ns.items() if isinstance(v, _SIMPLE) and not _dunder(k)}
+
+
 def _setup():
     if 'mod' in _S:
         return
     import AEIC.trajectories.store as store
 
     TS = store.TrajectoryStore
-    simple = (type(None), int, bool, str, float)
     _S['mod'] = store
     _S['TS'] = TS
-    _S['cls_snapshot'] = {k: v for k, v in vars(TS).items() if isinstance(v, simple) and not k.startswith('__')}
-    _S['mod_snapshot'] = {k: v for k, v in vars(store).items() if isinstance(v, simple) and not k.startswith('__')}
-    _S['proxy'] = sched.proxy_threading(store)
-    _S['locks'] = sched.replace_locks(
-        [(vars(store), lambda k, v: setattr(store, k, v)), (dict(vars(TS)), lambda k, v: setattr(TS, k, v))]
-    )
+    # the owner record may live on the store class, on any library base class of it, or in a module global of
+    # any library module (a shared helper): all simple-valued attributes of those are restored per execution
+    _S['classes'] = [c for c in TS.__mro__ if getattr(c, '__module__', '').startswith('AEIC')]
+    _S['cls_snaps'] = {c: _simple_attrs(vars(c)) for c in _S['classes']}
+    _S['cls_snapshot'] = _S['cls_snaps'][TS]
+    mods = [m for n, m in list(sys.modules.items()) if m is not None and (n == 'AEIC' or n.startswith('AEIC.'))]
+    _S['mod_snaps'] = {m: _simple_attrs(vars(m)) for m in mods}
+    # locks anywhere in the library (module globals, class attributes) become cooperative, and locks the library
+    # creates at run time too (threading proxy in every library module)
+    _S['proxies'] = [sched.proxy_threading(m) for m in mods]
+    _S['locks'] = sched.replace_locks(sched.library_namespaces('AEIC'))
 
 
 def _reset():
-    TS, store = _S['TS'], _S['mod']
-    for k, v in _S['cls_snapshot'].items():
-        setattr(TS, k, v)
-    for k, v in _S['mod_snapshot'].items():
-        setattr(store, k, v)
+    for c, snap in _S['cls_snaps'].items():
+        for k in [k for k in _simple_attrs(vars(c)) if k not in snap]:
+            delattr(c, k)
+        for k, v in snap.items():
+            if vars(c).get(k, _S) is not v:
+                setattr(c, k, v)
+    for m, snap in _S['mod_snaps'].items():
+        for k, v in snap.items():
+            if vars(m).get(k, _S) is not v:
+                setattr(m, k, v)
     # anything an execution stored on the harness subclass itself (rather than on the store class)
     sub = _S.get('Sub')
     if sub is not None:
-        for k in [k for k in vars(sub) if not (k.startswith('__') and k.endswith('__'))]:
+        for k in [k for k in vars(sub) if not _dunder(k)]:
             delattr(sub, k)
 
 
@@ -99,14 +121,22 @@ def _bodies(kind, nthreads):
 
 
 def _observe(s):
-    TS = _S['TS']
     owner = []
-    for k in sorted(_S['cls_snapshot']):
-        v = getattr(TS, k, None)
-        if not isinstance(v, (type(None), int, bool, str, float)):
-            v = f'<{type(v).__name__}>'  # e.g. a lock built lazily into a slot that held None at import
-        owner.append(s.index_of.get(v, v) if isinstance(v, int) and not isinstance(v, bool) else v)
+    for c in _S['classes']:
+        for k in sorted(set(_S['cls_snaps'][c]) | set(_simple_attrs(vars(c)))):
+            v = vars(c).get(k)
+            if not isinstance(v, _SIMPLE):
+                v = f'<{type(v).__name__}>'  # e.g. a lock built lazily into a slot that held None at import
+            owner.append(s.index_of.get(v, v) if isinstance(v, int) and not isinstance(v, bool) else v)
+    sub = _S.get('Sub')
+    if sub is not None:
+        for k, v in sorted(_simple_attrs(vars(sub)).items()):
+            owner.append((k, s.index_of.get(v, v) if isinstance(v, int) and not isinstance(v, bool) else v))
     return tuple(owner)
+
+
+def _in_library(filename):
+    return '/AEIC/' in filename and 'site-packages' not in filename
 
 
 def _is_ctor(code):
@@ -116,7 +146,7 @@ def _is_ctor(code):
 def _make(nthreads, body, gran):
     def make():
         _reset()
-        return sched.Scheduler(_bodies(body, nthreads), 'trajectories/store.py', opcode_in=_is_ctor, locks=_S['locks'], observe=_observe, granularity=gran)
+        return sched.Scheduler(_bodies(body, nthreads), _in_library, opcode_in=_is_ctor, locks=_S['locks'], observe=_observe, granularity=gran)
 
     return make
 
@@ -143,7 +173,7 @@ def _explore_branch(args):
     return st
 
 
-OWNER_EVENTS = ['create_mem', 'create_sub', 'create_file', 'close', 'open_ok', 'open_missing', 'open_invalid', 'append_invalid']
+OWNER_EVENTS = ['create_mem', 'create_sub', 'create_file', 'close', 'open_ok', 'open_missing', 'open_invalid', 'append_invalid', 'fork']
 OTHER_ATTEMPTS = ['create_mem', 'create_sub', 'create_file', 'open_ok']
 
 
@@ -204,6 +234,16 @@ def _seq_case(case):
     def owner():
         for ev in seq:
             try:
+                if ev == 'fork':
+                    # the process forks a child (as multiprocessing does) while the owner holds its claim
+                    import os
+
+                    pid = os.fork()
+                    if pid == 0:
+                        os._exit(0)
+                    os.waitpid(pid, 0)
+                    log['owner'].append('forked')
+                    continue
                 if ev == 'close':
                     if state['open']:
                         state['open'].pop().close()
